@@ -18,8 +18,10 @@ import traceback
 
 VERIF = os.path.dirname(os.path.dirname(os.path.abspath(__file__)))
 LEAN = os.path.join(VERIF, 'lean')
-REPO = os.environ.get('VERIF_REPO', '/repo')
-EVIDENCE_DIR = os.path.join(VERIF, 'evidence')
+REPO = os.path.realpath(os.environ.get('VERIF_REPO', '/repo'))
+SCRATCH_REPO = REPO != os.path.realpath('/repo')
+# Runs against a scratch worktree (mutation testing, VERIF_REPO=/tmp/...) never touch the committed evidence.
+EVIDENCE_DIR = os.path.join(VERIF, 'evidence-scratch' if SCRATCH_REPO else 'evidence')
 REPLAY_DIR = os.path.join(VERIF, 'replays')
 KNOWN_FILE = os.path.join(VERIF, 'known_findings.json')
 GUARD = 'QTOGGLESERVER_VERIF'
@@ -444,7 +446,19 @@ def write_replay(prop: Prop, name: str, payload: dict) -> str:
     return os.path.relpath(path, VERIF)
 
 
+def redirect_repo():
+    """Make `import qtoggleserver` resolve to VERIF_REPO (default /repo, where the venv's editable install points
+    anyway). Must be called before anything of qtoggleserver is imported; subprocesses spawned by a harness must
+    call it too (or be started through `python -m harness.sub`)."""
+    if SCRATCH_REPO:
+        for k in [k for k in sys.modules if k == 'qtoggleserver' or k.startswith('qtoggleserver.')]:
+            del sys.modules[k]
+        if REPO not in sys.path:
+            sys.path.insert(0, REPO)
+
+
 def check_repo_import():
+    redirect_repo()
     import qtoggleserver.version as v  # noqa
     p = os.path.realpath(v.__file__)
     if not p.startswith(os.path.realpath(REPO) + os.sep):
